@@ -508,6 +508,16 @@ def good(depth):
 def unrelated(depth, key):
     if not key:
         raise ValueError('key')
+
+def mixed(depth, child_index):
+    if not 0 <= depth < 0xff or not 0 <= child_index <= 0xffffffff:
+        raise ValueError('depth or index')
+
+def mixed_good(depth, child_index):
+    if not 0 <= depth <= 0xff or not 0 <= child_index <= 0xffffffff:
+        raise ValueError('depth or index')
+    if depth == 255 and child_index:
+        raise ValueError('both')
 """
 
 
@@ -517,18 +527,27 @@ def _depth_refusals(fn, names=('depth', 'self.depth')):
     for n in ast.walk(fn):
         if not (isinstance(n, ast.If) and any(isinstance(x, ast.Raise) for x in n.body)):
             continue
-        free = set(norm(x) for x in ast.walk(n.test) if isinstance(x, ast.Name) and x.id != 'self') | set(norm(x) for x in ast.walk(n.test) if isinstance(x, ast.Attribute))
-        free = set(f for f in free if f not in ('self',))
-        if not free or not free <= set(names):
-            continue
-        for v in (0, 1, 254, 255):
-            src = norm(n.test)
-            try:
-                r = eval(compile(ast.Expression(ast.parse(src.replace('self.depth', 'depth'), mode='eval').body), '<depth>', 'eval'), {'__builtins__': {}}, {'depth': v})
-            except Exception:
-                r = None
-            if r:
-                out.append((n, v))
+        def disjuncts(t):
+            if isinstance(t, ast.BoolOp) and isinstance(t.op, ast.Or):
+                return [d for v_ in t.values for d in disjuncts(v_)]
+            return [t]
+        hit = False
+        for test in disjuncts(n.test):           # any disjunct that is true raises, whatever the other ones read
+            free = set(norm(x) for x in ast.walk(test) if isinstance(x, ast.Name) and x.id != 'self') | set(norm(x) for x in ast.walk(test) if isinstance(x, ast.Attribute))
+            free = set(f for f in free if f not in ('self',))
+            if not free or not free <= set(names):
+                continue
+            for v in (0, 1, 254, 255):
+                src = norm(test)
+                try:
+                    r = eval(compile(ast.Expression(ast.parse(src.replace('self.depth', 'depth'), mode='eval').body), '<depth>', 'eval'), {'__builtins__': {}}, {'depth': v})
+                except Exception:
+                    r = None
+                if r:
+                    out.append((n, v))
+                    hit = True
+                    break
+            if hit:
                 break
     return out
 
@@ -540,7 +559,7 @@ def depth_domain(ctx):
     """The depth of an extended key is one byte: 0 .. 255 are all valid (a 255-level path is derivable and its keys import). No raise of
     HDKey.__init__ / child_private / child_public / subkey_for_path is decided by the depth alone for a depth of 0, 1, 254 or 255."""
     res = {f.name: [v for _, v in _depth_refusals(f)] for f in ast.parse(_DEPTH_FIXTURE).body}
-    if res != {'bad': [255], 'good': [], 'unrelated': []}:
+    if res != {'bad': [255], 'good': [], 'unrelated': [], 'mixed': [255], 'mixed_good': []}:
         raise AnalysisError('depth-domain fixture classified %s' % res)
     ctx.saw('depth-domain self-test on the embedded fixture: %s' % res)
     n = 0
@@ -555,3 +574,51 @@ def depth_domain(ctx):
             ctx.violate(q, 'an extended key of depth %d is refused (`%s`)' % (v, norm(node.test)[:60]), node,
                         'a key at depth 254 cannot produce its children and a valid depth-255 xprv / xpub cannot be imported: the path stops one level short of what BIP32 serialises')
     ctx.floor(n, 6, 'HDKey methods')
+
+
+@PROP.obligation('C03.public-master-derives', canaries=[
+    mut.insert_before('keys', 'HDKey.public_master', 'pm_depth = ', 'if not self.is_private:\n    return self', 'a public-only key answers the account-key request with itself'),
+    mut.replace_expr('keys', 'HDKey.public_master', 'self.subkey_for_path(path).public()', 'self.public()', 'the account key is the key itself'),
+])
+def public_master_derives(ctx):
+    """HDKey.public_master / public_master_multisig answer "the key at m/purpose'/coin'/account'": three hardened levels below the key. For
+    a private key and for a public-only key, every way out is the result of self.subkey_for_path(<expanded path>) (optionally .public()),
+    which derives the levels or refuses hardened levels on a public key - never self or another key that skips the derivation."""
+    from ..core import AnalysisError as AE
+    n = 0
+    for meth in ('public_master', 'public_master_multisig'):
+        q = ctx.repo.resolve_method('keys:HDKey', meth)
+        if q is None:
+            ctx.undecided('HDKey.%s vanished' % meth)
+        fn = ctx.repo.func(q)
+        for priv in (True, False):
+            for ms, wt, asp in ((False, None, False), (True, None, False), (False, 'segwit', True), (True, 'p2sh-segwit', False)):
+                def attr_hook(interp, base, name, st, priv=priv):
+                    if term(base) == SELF:
+                        if name == 'is_private':
+                            return priv
+                        if name == 'key_type':
+                            return 'bip32'
+                    return NotImplemented
+                hooks = {'get_key_structure_data': lambda it, a, kw, st, node: (["m", "purpose'", "coin_type'", "account'", 'change', 'address_index'], 44, 'base58'),
+                         'path_expand': lambda it, a, kw, st, node: S(('var', 'path'), 'list')}
+                it = Interp(ctx.repo, 'keys', hooks=hooks, self_cls='keys:HDKey', attr_hook=attr_hook, inline=['self.public_master'])
+                args = {'self': S(SELF), 'account_id': 0, 'purpose': None, 'witness_type': wt, 'as_private': asp}
+                if meth == 'public_master':
+                    args['multisig'] = ms
+                try:
+                    exits = it.run_function(fn, args)
+                except AE as e:
+                    ctx.undecided('HDKey.%s on a %s key not evaluable: %s' % (meth, 'private' if priv else 'public-only', str(e)[:100]))
+                n += 1
+                rets = [e for e in exits if e.kind == 'return']
+                for e in rets:
+                    v = term(e.value)
+                    derived = any(isinstance(s_, tuple) and len(s_) >= 4 and s_[0] == 'mcall' and s_[1] == SELF and s_[2] == 'subkey_for_path' and s_[3] and s_[3][0] == ('var', 'path')
+                                  for s_ in subterms(('w', v)))
+                    if not derived:
+                        ctx.violate(q, 'on a %s key, %s(multisig=%s, witness_type=%r) returns `%s`, which is not derived with self.subkey_for_path(<expanded path>)' % (
+                            'private' if priv else 'public-only', meth, ms, wt, show(v)[:60]), e.node or fn,
+                            "xpub.public_master() hands back the parent itself (depth 0) as the key at m/44'/0'/0': a wallet built on it derives every address from the wrong level")
+                ctx.saw('%s on a %s key, multisig=%s, witness_type=%s -> %s' % (meth, 'private' if priv else 'public-only', ms, wt, sorted(set('%s %s' % (e.kind, show(term(e.value))[:50]) for e in exits))))
+    ctx.floor(n, 16, 'public-master scenarios')
